@@ -6,9 +6,9 @@
    Parser level (proofs/ParserLayoutProof.v, ParserBlankLineProof.v): the parser looks at kinds and
    texts only (C20_parse_layout); an inserted blank line only shifts `line` of the rows below it.
    Property theorems only; proofs in proofs/LexerProof.v, RadixProof.v. *)
-From DTR Require Import Prelude I64 Ast FramedMap Lexer LexSpec Parser.
+From DTR Require Import Prelude I64 Ast FramedMap Lexer LexSpec Parser Show.
 From DTR Require Import Generated GeneratedTables.
-From DTR.proofs Require Import LexSpecProof LexerProof RadixProof TablesProof TablesProofLex ParserProof ParserLinesProof ParserLayoutProof ParserBlankLineProof.
+From DTR.proofs Require Import LexSpecProof LexerProof RadixProof TablesProof TablesProofLex ExprRoundTrip GrammarComplete ShowLex ShowParse ShowPrintable ShowRoundTrip ParserProof ParserLinesProof ParserLayoutProof ParserBlankLineProof.
 From Coq Require Import String.
 Local Open Scope N_scope.
 
@@ -305,6 +305,37 @@ Proof. exact hlex_one_no_error. Qed.
 
 
 
+(* every accepted text has a CANONICAL LAYOUT - its header line followed by the crate's own Display rendering of the parsed statements (Show.show_prog models impl Display for Stmt / DataEntry / Expr character for character and is what the correspondence compares, PROG lines) - and that layout parses back to the same statements (up to the recorded line numbers) and the same header *)
+Theorem C20_canonical_layout :
+  forall (s : text) (p : parsed),
+  parse s = Ok p ->
+  exists p' : parsed,
+  parse (header_text_of s ++ show_prog (p_stmts p)) = Ok p' /\
+  strip_lines (p_stmts p') = strip_lines (p_stmts p) /\ p_signals p' = p_signals p.
+Proof. exact projection. Qed.
+
+(* print-then-parse for any printable statement list under any header *)
+Theorem C20_print_then_parse :
+  forall (hdr : text) (names : list name) (ss : list stmt),
+  is_header hdr names ->
+  printable_prog (Datatypes.length names) ss ->
+  exists p : parsed,
+  parse (hdr ++ show_prog ss) = Ok p /\
+  strip_lines (p_stmts p) = strip_lines ss /\ p_signals p = names.
+Proof. exact print_then_parse. Qed.
+
+(* what the parser returns is printable *)
+Theorem C20_accepted_programs_are_printable :
+  forall (s : text) (p : parsed),
+  parse s = Ok p -> printable_prog (Datatypes.length (p_signals p)) (p_stmts p).
+Proof. exact parse_printable. Qed.
+
+(* decimal printing reads back *)
+Theorem C20_decimal_printing_reads_back :
+  forall n : Z, (0 <= n < 2 ^ 63)%Z -> from_str_radix (show_z n) 10 = Some n.
+Proof. exact show_z_reads_back. Qed.
+
+
 
 
 Check C20_parse_layout.
@@ -322,3 +353,5 @@ Print Assumptions C20_scanner_error_only_where_no_rule_matches.
 Print Assumptions C20_scanner_priority.
 Print Assumptions C20_header_scanner_is_longest_match.
 Print Assumptions C20_header_scanner_total.
+Print Assumptions C20_canonical_layout.
+Print Assumptions C20_print_then_parse.
